@@ -17,6 +17,7 @@ structure Tok where
   issuer : String := ""          -- the issuer the token response came from
   refresh : Bool := false        -- a refresh token (else an access token)
   grant : String := ""           -- tokens of one token response share it
+  exp : Int := 0                 -- the expiration the storage gave the token (ns since the epoch; 0 = not known to the observer)
   live : Bool := true
   deriving Repr, Inhabited
 
@@ -32,9 +33,12 @@ inductive Ev
       ("" = none: forged, tampered, garbage, foreign key) -/
   | userinfo (iss tok : String) (status : Nat) (subject : Option String)
   | introspect (iss : String) (p : C04.Presented) (tok : String) (status : Nat) (active : Bool) (members : List String)
-  | revoke (iss : String) (p : C04.Presented) (tok : String) (status : Nat) (performed : Bool)
+  /-- `fault`: a storage call of this request was made to fail (an input of the history, like the clock);
+      `effect`: after the request the storage no longer holds the token as usable (its record is revoked / removed / expired) -/
+  | revoke (iss : String) (p : C04.Presented) (tok : String) (status : Nat) (performed : Bool) (fault : Bool := false) (effect : Bool := true)
   | endSession (iss subject client : String) (status : Nat) (terminated : Bool)
-  | exchange (iss tok : String) (success : Bool)
+  /-- `hasActor`: the request also carried an actor_token (delegation); `actor` = label of the genuine token it stands for ("" = none) -/
+  | exchange (iss tok : String) (success : Bool) (hasActor : Bool := false) (actor : String := "")
   /-- the refresh grant by the owning client; `rotated` = the response replaced the refresh token by a new one -/
   | refresh (iss tok : String) (success rotated : Bool)
   deriving Repr
@@ -45,14 +49,23 @@ def find (m : MonState) (label : String) : Option Tok := m.toks.find? (·.label 
 def callerOf (m : MonState) (now : Int) (p : C04.Presented) (allowPublic : Bool) : Option OPClient :=
   m.base.clients.find? fun c => C04.callerIs m.base now c p && (allowPublic || c.auth != "none")
 
-/-- a token may be honoured at `iss` only if the provider issued it, there, and it is neither expired, revoked nor logged out -/
-def honourable (m : MonState) (ep unknown dead iss tok : String) (wantAccess : Bool) : Option String :=
+/-- the clock of the request is past the expiration the storage gave the token -/
+def pastExpiry (t : Tok) (now : Int) : Bool := t.exp != 0 && decide (now > t.exp)
+
+/-- the token is in its last second (or past it): expirations travel in tokens as whole seconds (`oidc.Time`), so within that second the
+    provider may already treat a self-contained token as expired; "still live" is only demanded of a token before it -/
+def lastSecond (t : Tok) (now : Int) : Bool := t.exp != 0 && decide (now + 1000000000 > t.exp)
+
+/-- a token may be honoured at `iss` only if the provider issued it, there, and it is neither expired, revoked nor logged out;
+    expired: the observer was told so, or the clock of the request is past the expiration the storage gave the token -/
+def honourable (m : MonState) (now : Int) (ep unknown dead iss tok : String) (wantAccess : Bool) : Option String :=
   match find m tok with
   | none => some (ep ++ unknown)
   | some t =>
     if wantAccess && t.refresh then some (ep ++ unknown)
     else if t.issuer != iss then some (ep ++ ":token-of-other-issuer")
     else if !t.live then some (ep ++ dead)
+    else if pastExpiry t now then some (ep ++ ":expired-token-honoured")
     else none
 
 def judge (m : MonState) (now : Int) (e : Ev) : Option String :=
@@ -61,34 +74,46 @@ def judge (m : MonState) (now : Int) (e : Ev) : Option String :=
   | .userinfo iss tok status subject =>
     match subject with
     | some sub =>
-      match honourable m "userinfo" ":claims-for-unknown-token" ":dead-token-honoured" iss tok true with
+      match honourable m now "userinfo" ":claims-for-unknown-token" ":dead-token-honoured" iss tok true with
       | some v => some v
       | none => if (find m tok).any (·.subject != sub) then some "userinfo:wrong-subject" else none
     | none => if status ≥ 200 ∧ status < 300 then some "userinfo:2xx-without-claims" else none
   | .introspect iss p tok _ active members =>
     if active then
-      match honourable m "introspect" ":active-for-unknown-token" ":dead-token-active" iss tok true with
+      match honourable m now "introspect" ":active-for-unknown-token" ":dead-token-active" iss tok true with
       | some v => some v
       | none =>
         match callerOf m now p false with
         | none => some "introspect:unauthenticated-caller"
         | some c => if (find m tok).any (!·.audience.contains c.id) then some "introspect:caller-not-in-audience" else none
     else if members != [] && members != ["active"] then some "introspect:inactive-answer-discloses-fields" else none
-  | .revoke iss p tok status performed =>
+  | .revoke iss p tok status performed fault effect =>
+    -- (a storage fault excuses an error answer, never a success answer: what was answered 200 has taken effect, see `update`)
     match find m tok with
-    | none => if (callerOf m now p true).isSome && status != 200 then some "revoke:unknown-token-not-200" else none
+    | none => if (callerOf m now p true).isSome && status != 200 && !fault then some "revoke:unknown-token-not-200" else none
     | some t =>
       if t.issuer != iss then none          -- another issuer's token: unknown there, no demand on the answer
       else match callerOf m now p true with
       | none => if performed then some "revoke:by-unauthenticated-caller" else none
       | some c =>
-        if c.id == t.client then (if status != 200 then some "revoke:owner-refused" else none)   -- whatever the hint
-        else if status == 200 && t.live then some "revoke:foreign-client-not-refused" else none
+        if c.id == t.client then
+          (if status != 200 && !fault then some "revoke:owner-refused"            -- whatever the hint
+           -- what was answered 200 has taken effect: the owner's revocation of a token that was still usable leaves it unusable
+           else if status == 200 && t.live && !lastSecond t now && !effect then some "revoke:answered-200-without-effect"
+           else none)
+        else if status == 200 && t.live && !lastSecond t now then some "revoke:foreign-client-not-refused" else none
   | .endSession _ _ _ status terminated => if status < 400 && !terminated then some "end_session:session-not-terminated" else none
-  | .exchange iss tok success => if success then honourable m "exchange" ":unknown-subject-token-accepted" ":dead-subject-token-accepted" iss tok false else none
+  | .exchange iss tok success hasActor actor =>
+    if success then
+      match honourable m now "exchange" ":unknown-subject-token-accepted" ":dead-subject-token-accepted" iss tok false with
+      | some v => some v
+      | none =>
+        -- an actor token is accepted on the same terms as a subject token (here: always presented as an access token)
+        if hasActor then honourable m now "exchange" ":unknown-actor-token-accepted" ":dead-actor-token-accepted" iss actor true else none
+    else none
   | .refresh iss tok success _ =>
     if success then
-      match honourable m "refresh" ":unknown-token-honoured" ":dead-token-honoured" iss tok false with
+      match honourable m now "refresh" ":unknown-token-honoured" ":dead-token-honoured" iss tok false with
       | some v => some v
       | none => if (find m tok).any (!·.refresh) then some "refresh:unknown-token-honoured" else none
     else none
@@ -99,7 +124,7 @@ def update (m : MonState) (now : Int) (e : Ev) : MonState :=
   match e with
   | .issued t => { m with toks := m.toks ++ [t] }
   | .expired l => kill m (·.label == l)
-  | .revoke iss p tok status _ =>
+  | .revoke iss p tok status _ _ _ =>
     match find m tok, callerOf m now p true with
     | some t, some c =>
       if c.id == t.client && status == 200 && t.issuer == iss then
@@ -107,9 +132,11 @@ def update (m : MonState) (now : Int) (e : Ev) : MonState :=
         kill m fun x => x.label == tok || (t.refresh && x.grant == t.grant)
       else m
     | _, _ => m
-  | .endSession iss sub cl status terminated =>
-    -- a logout ends the session at the issuer it is addressed to (another issuer of the same provider is another tenant)
-    if status < 400 && terminated then kill m fun x => x.subject == sub && x.client == cl && x.issuer == iss else m
+  | .endSession iss sub cl status _ =>
+    -- a logout ends the session at the issuer it is addressed to (another issuer of the same provider is another tenant).
+    -- An operation that answered success has taken effect: once the success redirect was given, the tokens of that session
+    -- must not be honoured any more - whatever happened between the provider and its storage
+    if status < 400 then kill m fun x => x.subject == sub && x.client == cl && x.issuer == iss else m
   | .refresh _ tok success rotated =>
     match find m tok with
     | some t => if success && rotated then kill m (·.grant == t.grant) else m     -- replaced by the tokens of the response
